@@ -101,7 +101,7 @@ func sliceAccess() *slice {
 		MapLit([]string{"a"}, TInt), MapLit([]string{"a", "b"}, TInt, TStr),
 		Len(TIntArr), Len(TAnyArr), Len(TStr), Len(TAnyMap),
 		Bin("==", TObj, TNil, TBool), Bin("==", TAny, TNil, TBool), Bin("+", TInt, TInt, TInt),
-		Lit(`"N"`, TMyStr, "N"), Lit(`"zz"`, TMyStr, "zz"), Bin("in", TMyStr, TObj, TBool), Bin("not in", TMyStr, TObj, TBool), // TMyStr: field-name literals only
+		Lit(`"N"`, TMyStr, "N"), Lit(`"zz"`, TMyStr, "zz"), Lit(`"hidden"`, TMyStr, "hidden"), Bin("in", TMyStr, TObj, TBool), Bin("not in", TMyStr, TObj, TBool), // TMyStr: field-name literals only
 		Var("X", TFunc), {Op: "cond", Out: TInt, In: []Slot{{T: TFunc, Operand: true, Closure: -1}, // TFunc: only the dynamic member X can be this condition
 			{T: TInt, Operand: true, Closure: -1}, {T: TInt, Operand: true, Closure: -1}}, Fmt: "%s ? %s : %s"},
 	}
@@ -138,6 +138,7 @@ func sliceAlloc() *slice {
 	rules := []*Rule{
 		Var("I", TInt), Var("J", TInt), Hash(TInt),
 		Bin("..", TInt, TInt, TIntArr),
+		Var("I64", TI64), Var("U8", TU8), Bin("..", TInt, TI64, TIntArr), Bin("..", TU8, TInt, TIntArr), Bin("..", TI64, TU8, TIntArr),
 		Arr(TInt), Arr(TInt, TInt), Arr(TInt, TInt, TInt), Arr(TIntArr), Arr(TIntArr, TIntArr), Arr(TAnyArr), Arr(TAnyMap, TInt), Arr(),
 		MapLit([]string{"a"}, TInt), MapLit([]string{"a", "b"}, TIntArr, TInt), MapLit([]string{"a", "b", "c"}, TInt, TInt, TAnyArr), MapLit([]string{"a"}, TAnyArr),
 		Builtin("map", TIntArr, TInt, TIntArr), Builtin("filter", TIntArr, TBool, TIntArr), Builtin("map", TIntArr, TAnyArr, TAnyArr), Builtin("map", TIntArr, TIntArr, TAnyArr),
@@ -266,6 +267,17 @@ func sliceMembership() *slice {
 	}
 	return &slice{name: "membership", g: NewGrammar(rules), tops: []NT{nt(TBool), nt(TInt), nt(TIntArr)}, modes: lib.AllModes,
 		maxN: map[string]int{"quick": 6, "thorough": 7}}
+}
+
+// nilin: `in` with a dynamically typed right operand that may be nil, an empty literal, or a collection (bytecode shape
+// and stack effect only: used by C05, which needs no reference semantics).
+func sliceNilIn() *slice {
+	rules := []*Rule{
+		Var("I", TInt), Var("S", TStr), Var("X", TAny), Lit("1", TInt, 1), Lit("nil", TNil, nil), Arr(), Var("AA", TAnyArr), Var("MA", TAnyMap),
+		Bin("in", TInt, TAny, TBool), Bin("in", TStr, TAny, TBool), Bin("in", TInt, TNil, TBool), Bin("in", TInt, TAnyArr, TBool), Bin("not in", TStr, TAnyArr, TBool), Bin("in", TStr, TAnyMap, TBool),
+		Prop(TAnyMap, "zz", TAny, false), Cond(TInt), Bin("+", TInt, TInt, TInt), ArrAs(TAnyArr, TInt, TBool), ArrAs(TAnyArr, TBool, TInt), MapLit([]string{"a", "b"}, TBool, TInt), Bin("==", TBool, TBool, TBool),
+	}
+	return &slice{name: "nilin", g: NewGrammar(rules), tops: []NT{nt(TBool), nt(TInt), nt(TAnyArr), nt(TAnyMap)}, modes: lib.AllModes, maxN: map[string]int{"quick": 6, "thorough": 7}}
 }
 
 // calls: the same name called with different argument counts in one expression (variadic functions, an
